@@ -487,7 +487,7 @@ func CheckC09(state *C09State) func(*Sim, *Step) *Violation {
 		first := st.HBefore + 1
 		d := DiffStore(c, "tibc", st.HBefore, first)
 		wantKeys := map[string]bool{
-			string(host.NextSequenceSendKey(p.SourceChain, p.DestinationChain)):            false,
+			string(host.NextSequenceSendKey(p.SourceChain, p.DestinationChain)):             false,
 			string(host.PacketCommitmentKey(p.SourceChain, p.DestinationChain, p.Sequence)): false,
 		}
 		for _, kd := range d {
